@@ -43,14 +43,14 @@ def reduce_pairs(rng, tier):
             base["tf"] = 1 if rng.random() < 0.2 else 0
             if base["tf"]:
                 base["kcont"] = "np"
-            if rng.random() < 0.3 and n >= 2 and not ("str" in base["kenc"][:1] and keys[0] == NULL):
+            if rng.random() < 0.3 and n >= 2:
                 base["T"] = 2          # chunked keys: first chunk inside a slice
                 # (string keys with a leading null fail in the constructor on this route: known finding of C02)
                 if m["k"] == "slice" and m["s"][2] not in (-997, 1):
                     base.pop("T")      # stepped slices on chunked keys are a documented refusal
             sel = mask_selection(n, m)
             f = filtered(base, sel, ("keys", "vals"))
-            if "T" in f and f["kenc"][0] == "str" and f["keys"] and f["keys"][0][0] == NULL:
+            if False:      # (repaired in 0f71cb3)
                 base.pop("T"); f.pop("T")     # (known finding of C02 in the constructor)
             out.append((base, f))
     # keys that arrive as arrow ChunkedArrays in every layout (empty chunks at the front, in the middle, at the end) under slices
